@@ -55,7 +55,8 @@ def behaviour(domain, action, problem_text, args):
 
 
 def rename(job):
-    """job: domain_text, action, mapping [[old, new]...] (dict insertion order), probes [{args, problem_text}]"""
+    """job: domain_text, action, mapping [[old, new]...] (dict insertion order), more [mapping...] (further calls on the
+    same action, one after another), probes [{args, problem_text}]"""
     out = {}
     dpath = write_tmp(job["domain_text"], ".pddl")
     try:
@@ -77,6 +78,8 @@ def rename(job):
     given = dict(mapping)
     try:
         a1.change_signature(mapping)
+        for further in job.get("more", []):
+            a1.change_signature({old: new for old, new in further})
         out["renamed"] = {"value": True}
     except Exception as e:  # noqa
         out["renamed"] = exc(e)
